@@ -12,6 +12,10 @@ pub fn gen(rng: &mut Rng, k: usize, _tier: &str) -> J {
     // core = the fragment the SQL path produces (scalars, optional scalars, structs/unions over the same field names, lists of scalars);
     // exotic = arbitrary nesting and cross-variant composite pairs
     let (a, b) = if exotic { let a = gen_ty(rng, depth, extremes); let b = gen_related_ty(rng, &a, depth, extremes); (a, b) } else { gen_core_pair(rng, extremes) };
+    // one case in forty: an integer interval with 127-129 values (the capacity of an interval set, up to which a type is expanded into its
+    // values) against a type of another variant it converts into (text, float)
+    let (a, b) = if k % 40 == 7 { let lo = rng.range(-3, 3); let a = json!(["int", [[lo, lo + *rng.pick(&[126i64, 127, 128])]]]);
+        let b = if rng.chance(2, 3) { gen_text_ty(rng) } else { gen_float_ty(rng, false) }; (if rng.chance(1, 4) { json!(["opt", a]) } else { a }, b) } else { (a, b) };
     let (a, b) = if rng.chance(1, 2) { (a, b) } else { (b, a) };
     let v = gen_val_in(rng, &a);
     let w = gen_val_in(rng, &b);
